@@ -289,8 +289,11 @@ impl Memfs {
         let m = opts.clone();
         let vfs = self.clone();
         entries = entries.follow(opts.follow).dirs_first().pre_op(move |x| {
+            // A followed link stands for its target so use the target's own kind and mode
+            let target = if m.follow && x.is_symlink() { vfs.entry(x.path()).ok() } else { None };
+            let x = target.as_ref().unwrap_or(x);
             let m1 = sys::mode(x, m.dirs, &m.sym)?;
-            if (!x.is_symlink() || m.follow) && x.is_dir() && !sys::revoking_mode(x.mode(), m1) && x.mode() != m1 {
+            if !x.is_symlink() && x.is_dir() && !sys::revoking_mode(x.mode(), m1) && x.mode() != m1 {
                 let mut guard = vfs.write_guard();
                 if let Some(entry) = guard.get_entry_mut(x.path()) {
                     entry.set_mode(Some(m1));
@@ -303,17 +306,21 @@ impl Memfs {
         for entry in entries {
             let src = entry?;
 
+            // A followed link stands for its target so use the target's own kind and mode
+            let target = if opts.follow && src.is_symlink() { self.entry(src.path()).ok() } else { None };
+            let src = target.as_ref().unwrap_or(&src);
+
             // Compute mode based on octal and symbolic values
             let m2 = if src.is_dir() {
-                sys::mode(&src, opts.dirs, &opts.sym)?
+                sys::mode(src, opts.dirs, &opts.sym)?
             } else if src.is_file() {
-                sys::mode(&src, opts.files, &opts.sym)?
+                sys::mode(src, opts.files, &opts.sym)?
             } else {
                 0
             };
 
-            // Apply permission to entry if set
-            if (!src.is_symlink() || opts.follow) && m2 != src.mode() && m2 != 0 {
+            // Apply permission to entry if set, a link itself is never changed
+            if !src.is_symlink() && m2 != src.mode() && m2 != 0 {
                 let mut guard = self.write_guard();
                 if let Some(entry) = guard.get_entry_mut(src.path()) {
                     entry.set_mode(Some(m2));
